@@ -375,8 +375,8 @@ class History:
         self.emit('EntityMethod', struct.pack('<II', eid, i) + binstream(data), 'call')
 
     # ---- nested
-    def nested(self):
-        if 'NestedProperty' not in self.ids or self.dialect == 'wowp': return self.update_prop()
+    def nested(self, fault_cut=False):
+        if 'NestedProperty' not in self.ids or self.dialect == 'wowp': return None if fault_cut else self.update_prop()
         cands = []
         for e, s in self.ents.items():
             if e < 0: continue
@@ -429,6 +429,15 @@ class History:
                 else:
                     nv = self.val(et); data = gen_types.wire_of(et, nv); effect = ('setitem', v, i, nv)
                 if effect[3] is not None and not data: return self.update_prop()    # zero-size element: "empty rest" would be taken
+        if fault_cut:
+            # the LAST element of the payload is cut by one byte (the size byte of the packet stays consistent): the elements before it decode, the
+            # last one does not - the packet fails and must leave the list exactly as it was (no element removed, none inserted)
+            fixed = et[0] in ('u', 'i') and et[1] >= 2 or et[0] in ('f32', 'f64', 'vec') if not isinstance(v, dict) else False
+            if isinstance(v, dict) or not fixed or not data: return None
+            payload = pack_bits(fields) + data[:-1]
+            if len(payload) > 255: return None
+            self.emit('NestedProperty', struct.pack('<IbB', eid, 1 if is_slice else 0, len(payload)) + bytes(3) + payload, 'fault-nested-cut-element')
+            return True
         payload = pack_bits(fields) + data
         if len(payload) > 255: return self.update_prop()
         if effect[0] == 'slice' and effect[4] and not data: return self.update_prop()
@@ -499,6 +508,14 @@ class History:
     def fault(self):
         r = self.rng.random()
         unk = 10 ** 6 + self.rng.randrange(1000)
+        if r < 0.06 and 'EntityCreate' in self.ids:
+            # an entity TYPE id that names nothing: 0, negative (the field is a signed 16-bit number), just past the end of the list, the extremes -
+            # for a new id and for an id that exists (which must stay what it is)
+            n = len(self.view.names)
+            et = self.rng.choice([0, -1, -2, -n, n + 1, n + 2, 0x7fff, -0x8000])
+            eid = self.rng.choice([e for e in self.ents if -2 ** 31 <= e < 2 ** 31] + [unk]) if self.rng.random() < 0.6 else unk
+            head = struct.pack('<ihii', eid, et, 3, 4) + bytes(24) + (struct.pack('<i', 0) if self.dialect in ('wot', 'wowp') else b'')
+            self.emit('EntityCreate', head + binstream(b'\x00'), 'fault-entity-type'); return
         if r < 0.2: self.emit('EntityProperty', struct.pack('<II', unk, 0) + binstream(b'\x00'), 'fault-unknown-entity')
         elif r < 0.35: self.emit('EntityMethod', struct.pack('<II', unk, 0) + binstream(b''), 'fault-unknown-entity')
         elif r < 0.5 and self.ents:
@@ -549,6 +566,7 @@ class History:
                 e, i, t = self.rng.choice(cands)
                 self.emit('EntityProperty', struct.pack('<II', e, i) + binstream(b''), 'fault-undecodable')
         elif 'NestedProperty' in self.ids and self.ents:
+            if self.rng.random() < 0.7 and any(self.nested(fault_cut=True) for _ in range(8)): return
             eid = self.rng.choice([e for e in self.ents if e >= 0] or [unk])
             self.emit('NestedProperty', struct.pack('<Ibb', eid, 0, 5) + bytes(3) + b'\x01', 'fault-size-mismatch')
 
@@ -710,7 +728,7 @@ def split(lines):
 
 
 # ------------------------------------------------------------------ targeted nested-property sweeps (C06)
-def sweep_defset(elem=('u', 2), nfields=5):
+def sweep_defset(elem=('u', 2), nfields=5, shape='A'):
     """one entity type whose client properties are a list, a dict of lists and a list of dicts"""
     # (f2 is a FIXED-SIZE array of 4: element updates need 2 index bits, slice bounds 3 - on the same list object, in both orders)
     fields = tuple(('f%d' % i, ('array', elem, 4 if i == 2 else None) if i % 2 == 0 else ('u', 1)) for i in range(nfields))
@@ -718,6 +736,11 @@ def sweep_defset(elem=('u', 2), nfields=5):
            'props': [('lst', ('array', elem, None), 'ALL_CLIENTS'), ('dct', ('dict', fields, False), 'ALL_CLIENTS'),
                      ('lod', ('array', ('dict', (('a', elem), ('b', ('array', ('u', 1), None))), False), None), 'OWN_CLIENT'),
                      ('pad', ('u', 4), 'ALL_CLIENTS')]}
+    if shape == 'B':
+        # five exposed properties of which one is BASE_AND_CLIENT (the own-client table has four): the entity step of a path takes
+        # bits_required(5) = 3 bits, not bits_required(4) = 2; with a four-field dict the fields below a dict field again start after 8 header bits
+        sec['props'].append(('bc', ('u', 2), 'BASE_AND_CLIENT'))
+        sec['props'][1] = ('dct', ('dict', fields[:4], False), 'ALL_CLIENTS')
     av = {'implements': [], 'volatile': [], 'client_methods': [], 'cell_methods': [], 'base_methods': [], 'props': [('x', ('u', 1), 'ALL_CLIENTS')]}
     return dict(aliases=collections.OrderedDict(), alias_ext=collections.OrderedDict(), ifaces=collections.OrderedDict(),
                 ents=collections.OrderedDict([('Avatar', av), ('Thing', sec)]), wrapped=False)
